@@ -162,7 +162,9 @@ class Check(common.Check):
                             refv += rng.choice([1, -1]) * Fraction(1, 2 ** rng.choice([34, 36, 40, 44]))
                     ref = num(refv, refv.denominator == 1 and rng.random() < 0.5)
                 kind = 'playat' if ref == '-' and rng.random() < 0.35 else 'ntog'
-                if kind == 'playat':
+                if ref == '-' and kind == 'ntog' and quant >= 0 and rng.random() < 0.4:
+                    ops.append(f'q ttnb {num(quant, qi)} {num(phase, pi)} -')
+                elif kind == 'playat':
                     via = rng.choice(['clock', 'rplay', 'rrun', 'deco', 'resume'])
                     form = rng.choice(['Q', 'Q', 'L'] + (['N'] if phase == 0 else []))
                     ops.append(f'q playat {num(quant, qi)} {num(phase, pi)} {via}:{form}')
@@ -171,7 +173,8 @@ class Check(common.Check):
             elif r < 0.74:
                 ops.append('q ' + rng.choice(['invb', 'invs', 'invbars', 'b2s', 's2b', 'b2bars', 'bars2b']) + ' ' + fq(value()))
             elif r < 0.82:
-                ops.append('q nextbar ' + (fq(value()) if rng.random() < 0.6 else '-'))
+                rb = rng.random()
+                ops.append('q playbar -' if rb < 0.25 else 'q nextbar ' + (fq(value()) if rb < 0.7 else '-'))
             else:
                 ops.append('q ' + rng.choice(['beats', 'tempo', 'beatdur', 'ebeats', 'bar', 'bar', 'bib', 'bib']))
         if rng.random() < 0.3:
@@ -179,7 +182,8 @@ class Check(common.Check):
             q = rng.choice([1, 2, 3, 4, 4, 8]) if not approx else rng.choice([3, 1.5, 4])
             jump = value() + Fraction(rng.choice([1, 3, 5, 7]), 8)
             ops.append(rng.choice(['beats ', 'obeats ']) + fq(jump))
-            tail = [f'q ntog {num(Fraction(q), Fraction(q).denominator == 1)} i:0 -', 'q nextbar -',
+            tail = [f'q ntog {num(Fraction(q), Fraction(q).denominator == 1)} i:0 -', 'q nextbar -', 'q playbar -',
+                    f'q ttnb {num(Fraction(q), Fraction(q).denominator == 1)} i:0 -',
                     f'q playat {num(Fraction(q), Fraction(q).denominator == 1)} i:0 ' + rng.choice(['clock:Q', 'rplay:N', 'deco:L']),
                     'q bar', 'q bib']
             rng.shuffle(tail)
@@ -239,7 +243,8 @@ class Check(common.Check):
                 continue                           # checked by the oracle on the real clock only
             lines.append('reset')
             lines.append(f"init {c['init']} {c.get('start', '0')}")
-            lines.extend(c['ops'])
+            # play_next_bar wakes at next_bar(current beat); beats + time_to_next_beat is next_time_on_grid
+            lines.extend('q nextbar -' if o == 'q playbar -' else o.replace('q ttnb ', 'q ntog ', 1) for o in c['ops'])
             if c.get('ticker'):
                 lines.append(f"ticks {c['ticker']['d']} {c['ticker']['n']}")
         out, err = common.run_driver('Sc3Verif/C12/Driver.lean', lines)
@@ -255,7 +260,7 @@ class Check(common.Check):
         it = iter(res)
         return [None if c.get('rt') else next(it) for c in cases]
 
-    DISCONT = ('q bar', 'q bib', 'q nextbar', 'q ntog', 'q playat', 'bpb')
+    DISCONT = ('q bar', 'q bib', 'q nextbar', 'q ntog', 'q playat', 'q playbar', 'q ttnb', 'bpb')
 
     def compare(self, case, io, mo):
         if case.get('rt'):
@@ -394,7 +399,7 @@ class Check(common.Check):
                         return bad(k, 'tempo-set', 'tempo not set')
                 elif C != P and not (approx and all(close(C[x], P[x], TOL) for x in C)):
                     return bad(k, 'tempo-domain', 'state changed by a rejected call')
-            if C['bpb'] == 0 and op[0] == 'q' and op[1] in ('nextbar', 'bar', 'bib', 'invbars', 'b2bars', 'bars2b'):
+            if C['bpb'] == 0 and op[0] == 'q' and op[1] in ('nextbar', 'playbar', 'bar', 'bib', 'invbars', 'b2bars', 'bars2b'):
                 prev = cur
                 continue                          # meter 0 (rejected by the setter, but already stored)
             elif op[0] in ('beats', 'obeats'):
@@ -433,7 +438,7 @@ class Check(common.Check):
                 elif kq == 'beatdur':
                     if val is None or not close(val * C['tempo'], 1, tol if approx else Fraction(1, 10 ** 12)):
                         return bad(k, 'affine', 'beat_dur × tempo ≠ 1')
-                elif kq in ('ntog', 'playat'):
+                elif kq in ('ntog', 'playat', 'ttnb'):
                     q, p = numval(op[2]), numval(op[3])
                     ref = numval(op[4]) if kq == 'ntog' and op[4] != '-' else C['beats']
                     if q < 0:
@@ -451,10 +456,11 @@ class Check(common.Check):
                     if val is None or not close(val, exp, tol):
                         if approx and q > 0 and near_int((ref - C['bbb'] - p) / q):
                             continue                  # rounding exactly on a grid line
-                        what = 'beat at which play(quant) wakes the task' if kq == 'playat' else 'next_time_on_grid'
-                        return bad(k, 'grid' if kq == 'ntog' else 'play', f'{what} = {float(val) if val is not None else res}, '
+                        what = {'playat': 'beat at which play(quant) wakes the task',
+                                'ttnb': 'beats + time_to_next_beat(quant)'}.get(kq, 'next_time_on_grid')
+                        return bad(k, 'play' if kq == 'playat' else 'grid', f'{what} = {float(val) if val is not None else res}, '
                                    f'the least grid point ≥ reference is {float(exp)}')
-                elif kq == 'nextbar':
+                elif kq in ('nextbar', 'playbar'):
                     x = F(op[2]) if op[2] != '-' else C['beats']
                     if C['bpb'] <= 0:
                         continue
@@ -463,6 +469,9 @@ class Check(common.Check):
                             or not (bars.denominator == 1 or (approx and near_int(bars))):
                         if approx and near_int((x - C['bbb']) / C['bpb']):
                             continue
+                        if kq == 'playbar':
+                            return bad(k, 'play', f'play_next_bar at beat {float(x)} wakes the task at {res}, '
+                                                  f'not at the first bar line ≥ it')
                         return bad(k, 'next-bar', f'next_bar({float(x)}) = {res} is not the first bar line ≥ it')
                 elif kq == 'bar':
                     if C['bpb'] <= 0:
@@ -493,7 +502,7 @@ class Check(common.Check):
             w = line.split()
             if w[0] in ('tempo', 'etempo', 'beats', 'obeats', 'bpb'):
                 changed = True
-            elif changed and w[0] == 'q' and w[1] in ('ntog', 'playat', 'invb', 'invs', 'invbars', 'nextbar', 'bar', 'bib'):
+            elif changed and w[0] == 'q' and w[1] in ('ntog', 'playat', 'ttnb', 'playbar', 'invb', 'invs', 'invbars', 'nextbar', 'bar', 'bib'):
                 return True
         return False
 
